@@ -259,6 +259,15 @@ def veq(a, b):
     return a == b
 
 
+def norm_loc(loc):
+    """panic locations without machine-specific prefixes: repo-relative, or crate-relative for dependencies"""
+    if loc.startswith('/repo/'):
+        return loc[len('/repo/'):]
+    if '/registry/src/' in loc:
+        return '/'.join(loc.split('/registry/src/')[1].split('/')[1:])
+    return loc
+
+
 def decode(d):
     """runner dump (JSON) -> python value"""
     if not isinstance(d, dict):
@@ -279,7 +288,7 @@ def decode(d):
     if 'n' in d: return Native(d['n'])
     if 'err' in d: return Err(d['err'])
     if 'viol' in d: return Viol(d['viol'])
-    if 'panic' in d: return Panic(d['panic'].get('msg', ''), d['panic'].get('loc', ''))
+    if 'panic' in d: return Panic(d['panic'].get('msg', ''), norm_loc(d['panic'].get('loc', '')))
     if 'cerr' in d: return CErr(d['cerr'].get('class', ''), d['cerr'].get('text', ''))
     if 'host_err' in d: return HostErr(d['host_err'])
     if 'skip' in d: return HostErr('skip:' + d['skip'])
@@ -592,7 +601,7 @@ class Report:
             else:
                 violations.append((sig, fs))
         for kid, sigs in sorted(known_hit.items()):
-            kf = [f for f in findings if f['id'] == kid][0]
+            kf = [f for f in findings if f.get('id') == kid][0]
             print('KNOWN-FINDING: property=%s %s: %s (%d failing signature(s) listed)' % (self.prop, kid, kf.get('what', ''), len(sigs)))
         os.makedirs(os.path.join(VERIF, 'replays'), exist_ok=True)
         groups = {}
